@@ -111,7 +111,7 @@ def run_bin(args):
         # the dump files already exist and are longer than the new dump (an earlier, larger grammar dumped to the same path)
         for p in (dfa, rx):
             with open(p, "w") as f:
-                f.write("digraph old {\n" + "\t_9 -> _9 [label=\"stale\"];\n" * 20000 + "}\n")
+                f.write("digraph old {\n" + "\t_9 -> _9 [label=\"stale\"];\n" * 40000 + "}\n")
     rc, out, err = core.run_complgen(sh, text, extra=["--dfa", dfa, "--regex", rx], out="-")
     res = []
     for p in (dfa, rx):
@@ -287,6 +287,11 @@ def run(ctx, proof):
             ctx.violation("dump-not-written", dict(rp, exit=rc, what="accepted grammar but --dfa / --regex file missing"))
             continue
         for which, data in (("dfa", dfa), ("rx", rx)):
+            if b"stale" in data:
+                # the file existed before (run_bin wrote a longer one there): nothing of it may survive
+                ctx.violation(f"stale-content-left-in-dump:{which}", dict(rp, file_tail=data[-300:].decode("utf-8", "replace"),
+                              what=f"the --{'dfa' if which == 'dfa' else 'regex'} file still contains text of the file that was there before"))
+                continue
             reqs.append("dot " + core.hexs(data))
             plan.append((which, rp, rec, sh, data))
     # the Lean model of DFA::to_dot (Model/DotEmit.lean; theorem dot_dump_parses: what it writes always parses to
